@@ -40,6 +40,7 @@ def required(tier):
     return {
         "config.consume_input_off": 3000,
         "inputs.long_multiply_corrupted": 1000,
+        "grammars.lex_corpus": 6,
         "errors.multiple": 2000,
         "glr.hot_inputs_varied": 30,
         "glr.recovery_event.second_error_before_any_shift_after_partial_kill": 100,
@@ -161,6 +162,12 @@ def run(ctx):
     rmon = GlrRecoveryMonitor()
     maxlen = 4 if ctx.tier == "quick" else 5
     try:
+        # vocabularies whose tokens have different lengths and may begin with / span blanks: a
+        # recovery can resume on a token that starts with a layout character
+        for i, (name, g) in enumerate(cfg.LEX_CORPUS):
+            if ctx.mine(i) or ctx.mine(i + 7):
+                ctx.count("grammars.lex_corpus")
+                one_grammar(ctx, lmon, rmon, g, cfg.LEX_ALPHABET, 5)
         for name, g, alphabet in glrwork.grammar_stream(ctx, overlap_share=0.0):
             if not ctx.more():
                 break
